@@ -47,6 +47,9 @@ fn main() {
         "check" => {
             let code = match args[2].as_str() {
                 "C01" => props::c01::run(tier, seed),
+                "C02" => props::c02::run(tier, seed),
+                "C03" => props::c03::run(tier, seed),
+                "C07" => props::c07::run(tier, seed),
                 other => {
                     eprintln!("unknown property {other}");
                     2
@@ -80,6 +83,9 @@ fn replay(path: &str) -> i32 {
                 all.extend(props::c01::grid(tier));
                 all.extend(props::c01::core(tier));
             }
+            "C02" => all.extend(props::c02::all_scenarios(tier)),
+            "C03" => all.extend(props::c03::all_scenarios(tier)),
+            "C07" => all.extend(props::c07::all_scenarios(tier)),
             _ => {}
         }
     }
@@ -107,6 +113,8 @@ fn replay(path: &str) -> i32 {
         let item = dec[k][ev.dir as usize & 1].feed(&ev.frame);
         println!("  step {:4} link {} {} {} {:?}", ev.step, ev.link, if ev.dir == 0 { "a>b" } else { "b>a" }, if k == 0 { "sent     " } else { "delivered" }, item);
     }
+    println!("live tasks at end: {:?}", out.live);
+    println!("mux: {:?}", out.mux);
     println!("outcome: {}", verdict.outcome);
     println!("panics: {:?}", out.panics);
     let mut code = 0;
@@ -118,3 +126,4 @@ fn replay(path: &str) -> i32 {
     }
     code
 }
+
